@@ -17,9 +17,10 @@ Vectors and matrices are index functions on `Nat` (`Nat â†’ Î±`, `Nat â†’ Nat â†
 `Tn Î±` (shape + index function on index lists).  A sparse COO tensor is a list of
 (index tuple, value); its meaning (`densify`) adds the values of equal index tuples (coalescing = sum).
 
-`fixed : Bool` selects, for the two defects of the unchanged tree (D27: `toeplitz_matmul` with a 1-D
-right-hand side raises; D28: `sparse_repeat` adds the repeat NUMBER instead of number * size), the
-code as it is (`false`) or the behaviour after notes/C20_fix_*.diff (`true`).
+`fixed : Bool`: `true` is the CURRENT code (after the fix commits 94ba5d1 / 571691c / 826dae6 / 64f3bec for the defects
+D27 1-D rhs of `toeplitz_matmul`, D28 `sparse_repeat` offset, D31 negative int in `sparse_getitem`, D32 `stable_qr` on fat
+matrices) and the subject of the main theorems; `false` is the PREVIOUS code, kept only for the `previous_code_*` statements.
+The driver and the correspondence use `fixed = true` only.
 -/
 namespace LinOp.C20
 
